@@ -18,6 +18,114 @@ import (
 	"strings"
 )
 
+// c02Canon renders expressions with the local names of one function replaced by what they are bound to, so that
+// renaming a receiver, parameter or local variable does not change the transcript:
+//   receiver -> recv, i-th parameter -> arg<i>, `x := y.(type)` of a type switch -> sw, `x, ok := y.(T)` -> as(T),
+//   `a, b := f(…)` -> f#0, f#1, `x := e` -> let(e), `for _, x := range e` -> each(e).
+type c02Canon struct{ names map[string]string }
+
+func newC02Canon(fd *ast.FuncDecl) *c02Canon {
+	c := &c02Canon{names: map[string]string{}}
+	if fd.Recv != nil {
+		for _, f := range fd.Recv.List {
+			for _, n := range f.Names {
+				c.names[n.Name] = "recv"
+			}
+		}
+	}
+	i := 0
+	for _, f := range fd.Type.Params.List {
+		for _, n := range f.Names {
+			c.names[n.Name] = fmt.Sprintf("arg%d", i)
+			i++
+		}
+		if len(f.Names) == 0 {
+			i++
+		}
+	}
+	if fd.Body == nil {
+		return c
+	}
+	bind := func(lhs ast.Expr, to string) {
+		if id, ok := lhs.(*ast.Ident); ok && id.Name != "_" {
+			if _, done := c.names[id.Name]; !done { // first binding wins (source order)
+				c.names[id.Name] = to
+			}
+		}
+	}
+	ast.Inspect(fd.Body, func(n ast.Node) bool {
+		switch x := n.(type) {
+		case *ast.TypeSwitchStmt:
+			if as, ok := x.Assign.(*ast.AssignStmt); ok && len(as.Lhs) == 1 {
+				bind(as.Lhs[0], "sw")
+			}
+		case *ast.AssignStmt:
+			if x.Tok != token.DEFINE {
+				return true
+			}
+			if len(x.Rhs) == 1 {
+				switch rhs := x.Rhs[0].(type) {
+				case *ast.CallExpr:
+					for k, l := range x.Lhs {
+						bind(l, fmt.Sprintf("%s#%d", c.render(rhs.Fun), k))
+					}
+					return true
+				case *ast.TypeAssertExpr:
+					if rhs.Type != nil {
+						bind(x.Lhs[0], "as("+types.ExprString(rhs.Type)+")")
+						return true
+					}
+				}
+			}
+			if len(x.Lhs) == len(x.Rhs) {
+				for k, l := range x.Lhs {
+					bind(l, "let("+c.render(x.Rhs[k])+")")
+				}
+			}
+		case *ast.RangeStmt:
+			if x.Tok == token.DEFINE {
+				if x.Value != nil {
+					bind(x.Value, "each("+c.render(x.X)+")")
+				}
+				if x.Key != nil {
+					bind(x.Key, "index("+c.render(x.X)+")")
+				}
+			}
+		}
+		return true
+	})
+	return c
+}
+
+func (c *c02Canon) render(e ast.Expr) string {
+	switch x := e.(type) {
+	case *ast.Ident:
+		if v, ok := c.names[x.Name]; ok {
+			return v
+		}
+		return x.Name
+	case *ast.SelectorExpr:
+		return c.render(x.X) + "." + x.Sel.Name
+	case *ast.ParenExpr:
+		return "(" + c.render(x.X) + ")"
+	case *ast.UnaryExpr:
+		return x.Op.String() + c.render(x.X)
+	case *ast.StarExpr:
+		return "*" + c.render(x.X)
+	case *ast.BinaryExpr:
+		return c.render(x.X) + " " + x.Op.String() + " " + c.render(x.Y)
+	case *ast.IndexExpr:
+		return c.render(x.X) + "[" + c.render(x.Index) + "]"
+	case *ast.CallExpr:
+		args := make([]string, len(x.Args))
+		for i, a := range x.Args {
+			args[i] = c.render(a)
+		}
+		return c.render(x.Fun) + "(" + strings.Join(args, ", ") + ")"
+	}
+	return types.ExprString(e)
+}
+
 func init() {
 	gen("RenameSites", func(r *Repo) (string, error) {
 		files, err := r.Files("js")
@@ -50,6 +158,7 @@ func init() {
 					continue
 				}
 				fn := fd.Name.Name
+				canon := newC02Canon(fd)
 				var stack []ast.Node
 				ast.Inspect(fd.Body, func(n ast.Node) bool {
 					if n == nil {
@@ -71,22 +180,22 @@ func init() {
 							if cc, ok := clause.(*ast.CaseClause); ok {
 								node = types.ExprString(cc.List[0])
 							}
-							sites = append(sites, site{x.Pos(), fn, node, types.ExprString(x.Args[0])})
+							sites = append(sites, site{x.Pos(), fn, node, canon.render(x.Args[0])})
 							siteClause[x.Pos()] = clause
 						}
 						if id, ok := x.Fun.(*ast.Ident); ok && id.Name == "optimizeStmtList" && len(x.Args) >= 1 {
-							opts = append(opts, optCall{x.Pos(), fn, clause, types.ExprString(x.Args[0])})
+							opts = append(opts, optCall{x.Pos(), fn, clause, canon.render(x.Args[0])})
 						}
 						if id, ok := x.Fun.(*ast.Ident); ok && id.Name == "newRenamer" {
 							for _, a := range x.Args {
-								newArgs = append(newArgs, types.ExprString(a))
+								newArgs = append(newArgs, canon.render(a))
 							}
 						}
 					case *ast.AssignStmt:
 						for i, l := range x.Lhs {
 							if sel, ok := l.(*ast.SelectorExpr); ok && sel.Sel.Name == "rename" && i < len(x.Rhs) {
 								if in, ok := sel.X.(*ast.SelectorExpr); ok && in.Sel.Name == "renamer" {
-									writes = append(writes, write{x.Pos(), fn, types.ExprString(x.Rhs[i])})
+									writes = append(writes, write{x.Pos(), fn, canon.render(x.Rhs[i])})
 								}
 							}
 						}
